@@ -16,6 +16,7 @@ from .ring import LP, co
 
 ASSUME: list = []  # (LP, op)   meaning  LP op 0
 COLLECT = None  # when a list: undecided `< 0` tests are collected as precondition-schema instances
+NO_SOLVER = False  # when True: sign facts are decided syntactically / structurally only (no z3); undecided otherwise
 WITNESS = None  # optional {variable generator: rational}: a point claimed to satisfy ASSUME (checked exactly by cover())
 TIMEOUT_MS = 5000
 LOG: list = []  # (description, verdict, backend, seconds)
@@ -31,9 +32,10 @@ def reset():
     LOG.clear()
     _zv.clear()
     _exp_cache.clear()
-    global COLLECT, WITNESS
+    global COLLECT, WITNESS, NO_SOLVER
     COLLECT = None
     WITNESS = None
+    NO_SOLVER = False
 
 
 def assume(p, op):
@@ -225,32 +227,33 @@ def decide(p, op, why="branch"):
         STATS["syntactic"] += 1
         return v
     # z3
-    t0 = time.time()
-    gens = set(p.gens())
-    for q, _ in ASSUME:
-        gens |= q.gens()
-    base = defs_z3(gens) + [rel(toz3(q), o) for q, o in ASSUME]
-    f = rel(toz3(p), op)
     verdict = None
-    s = z3.Solver()
-    s.set("timeout", TIMEOUT_MS)
-    s.add(*base)
-    s.add(z3.Not(f))
-    r1 = s.check()
-    if r1 == z3.unsat:
-        verdict = True
-    else:
+    if not NO_SOLVER:
+        t0 = time.time()
+        gens = set(p.gens())
+        for q, _ in ASSUME:
+            gens |= q.gens()
+        base = defs_z3(gens) + [rel(toz3(q), o) for q, o in ASSUME]
+        f = rel(toz3(p), op)
         s = z3.Solver()
         s.set("timeout", TIMEOUT_MS)
         s.add(*base)
-        s.add(f)
-        r2 = s.check()
-        if r2 == z3.unsat:
-            verdict = False
-    dt = time.time() - t0
-    STATS["z3_calls"] += 1
-    STATS["z3_time"] += dt
-    LOG.append((f"{why}: {str(p)[:80]} {op} 0", verdict, "z3", round(dt, 3)))
+        s.add(z3.Not(f))
+        r1 = s.check()
+        if r1 == z3.unsat:
+            verdict = True
+        else:
+            s = z3.Solver()
+            s.set("timeout", TIMEOUT_MS)
+            s.add(*base)
+            s.add(f)
+            r2 = s.check()
+            if r2 == z3.unsat:
+                verdict = False
+        dt = time.time() - t0
+        STATS["z3_calls"] += 1
+        STATS["z3_time"] += dt
+        LOG.append((f"{why}: {str(p)[:80]} {op} 0", verdict, "z3", round(dt, 3)))
     if verdict is not None:
         return verdict
     if COLLECT is not None and op in ("<", ">", "<=", ">="):
